@@ -147,8 +147,12 @@ func (r *Run) Finish() int {
 		"violations":  nNew,
 	}
 	b, _ := json.MarshalIndent(ev, "", " ")
-	os.MkdirAll(filepath.Join(r.Root, "evidence"), 0755)
-	if err := ioutil.WriteFile(filepath.Join(r.Root, "evidence", r.Prop+".json"), b, 0644); err != nil {
+	evDir := filepath.Join(r.Root, "evidence")
+	if d := os.Getenv("VERIF_EVIDENCE_DIR"); d != "" {
+		evDir = d // self-test runs against mutated copies must not overwrite the real evidence
+	}
+	os.MkdirAll(evDir, 0755)
+	if err := ioutil.WriteFile(filepath.Join(evDir, r.Prop+".json"), b, 0644); err != nil {
 		fmt.Fprintf(os.Stderr, "HARNESS-ERROR: cannot write evidence: %v\n", err)
 		return 2
 	}
@@ -204,7 +208,11 @@ func NewRun(prop, tier, root string) *Run {
 	r := &Run{Prop: prop, Tier: tier, Seed: seed, Root: root, Start: time.Now(), Budget: budget,
 		Stats: eng.NewStats(), Extra: map[string]interface{}{}, Level: "model_checking"}
 	r.Pool = eng.NewPool(0, tier)
-	r.Col = eng.NewCollector(eng.LoadFindings(filepath.Join(root, "known_findings.json")), filepath.Join(root, "replays"))
+	replays := filepath.Join(root, "replays")
+	if d := os.Getenv("VERIF_EVIDENCE_DIR"); d != "" {
+		replays = filepath.Join(d, "replays")
+	}
+	r.Col = eng.NewCollector(eng.LoadFindings(filepath.Join(root, "known_findings.json")), replays)
 	return r
 }
 
